@@ -9,7 +9,7 @@ only = sys.argv[1:]
 bad = []
 for name in sorted(os.listdir(os.path.join(here, 'seeded'))):
     d = os.path.join(here, 'seeded', name)
-    if not os.path.isdir(d) or (only and not any(o in name for o in only)):
+    if not os.path.isdir(d) or not os.path.exists(os.path.join(d, 'meta.json')) or (only and not any(o in name for o in only)):
         continue
     meta = json.load(open(os.path.join(d, 'meta.json')))
     ids = []
